@@ -205,11 +205,13 @@ func vc_C05_facepair() {
 	vfPair(axis, pat)
 }
 
-func vt_C05_facepair_all() {
+// thorough: 3 x 512 seeded patterns of the 3 x 4096 (all of them take several hours; the seed
+// moves the sample, so repeated runs with different VERIF_SEED cover different patterns)
+func vt_C05_facepair_more() {
 	axis := vfCase("axis", 3)
-	hi := vfCase("hi", 64)
-	lo := vfCase("lo", 64)
-	vfPair(axis, hi*64+lo)
+	k := vfCase("sample", 512)
+	pat := (k*8 + (vfSeed()+axis*3)%8) % 4096
+	vfPair(axis, pat)
 }
 
 // O4 orientation: for every configuration and every connected patch of its
